@@ -29,6 +29,7 @@ from pycel.excelutil import (
     ERROR_CODES,
     in_array_formula_context,
     NAME_ERROR,
+    NUM_ERROR,
     PyCelException,
     uniqueify,
 )
@@ -973,6 +974,16 @@ class ExcelFormula:
                 address = f"{excel_formula.cell.address}: " if excel_formula.cell else ""
                 error_logger('error', f"{address}{excel_formula.python_code}",
                              exc=FormulaEvalError)
+
+            if isinstance(ret_val, (int, float)) and not isinstance(
+                    ret_val, bool):
+                try:
+                    if not math.isfinite(ret_val):
+                        # inf and nan are not values a cell can hold
+                        ret_val = NUM_ERROR
+                except OverflowError:
+                    # an integer beyond the range of a double
+                    ret_val = NUM_ERROR
 
             if error_messages:
                 level = 'warning' if ret_val in ERROR_CODES else 'info'
